@@ -42,9 +42,9 @@ func c16Lost(n, s int, ins bool, p, L int) int {
 }
 
 func c16Gen(g *core.Gen) {
-	ss := []int{4, 8}
+	ss := []int{4, 8, 12, 16}
 	if g.Thorough() {
-		ss = []int{4, 8, 12, 16, 20, 32}
+		ss = []int{4, 8, 12, 16, 20, 32, 48}
 	}
 	for _, s := range ss {
 		for _, n := range []int{3 * s, 3*s + 1, 4*s - 1, 5*s + s/2} {
@@ -100,7 +100,7 @@ func init() {
 	core.Register(&core.Prop{
 		ID:    "C16",
 		Level: "model_checking",
-		Rule: "full product: slice size {4,8 (quick), +12,16,20,32 (thorough)} x file length {3s,3s+1,4s-1,5s+s/2} x {insert,delete} x every position 0..len x every edit length 1..2s+1 x second file present/absent, " +
+		Rule: "full product: slice size {4,8,12,16 (quick), +20,32,48 (thorough)} x file length {3s,3s+1,4s-1,5s+s/2} x {insert,delete} x every position 0..len x every edit length 1..2s+1 x second file present/absent, " +
 			"plus every ordered pair (content of f under g's name: swap, overwrite, rename). Recovery files are deleted so that exactly as many blocks remain as slices the edit touches. " +
 			"Oracle: Verify usable == slices found by brute-force scan == edit geometry; Repair must succeed with exactly that many blocks (a found slice that consumed a block would make it fail). non-trivial = edit destroys >=1 and leaves >=1 slice",
 		Assumptions: []string{"content is high-entropy and zero-free so the occurrence set is overlap-free (self-checked per case by the brute-force scan)"},
